@@ -15,9 +15,12 @@ CLAIMED = {
               'marker, first byte, 3 length classes) encoder and decoder use the same probability tables with the same index roles, '
               'the same polarity on every decision bit, the same state update and the same rep-distance rotation (21 cases). '
               'CTRL-SETS + FLAG-MODEL + READER-STATE: LZMA2 chunk protocol for all 256 control values and all reachable flag states. '
-              'WINDOW-ALIGN: decoder window a multiple of 16.',
-              'match finder/window invariants (matches only inside the retained window), look-ahead bookkeeping, optimal-parser '
-              'indices, range-coder carry and flush length, 31-bit renormalisation, arithmetic offsets of symbols (len - 2, slot '
+              'WINDOW-ALIGN: decoder window a multiple of 16. WINDOW-PRESET: the window is not shrunk below a preset dictionary. '
+              'PARSER-REPS: the optimal parser rotates its copy of the four repeat distances exactly as the coder does, for '
+              'rep index 0..3 and for a match (constant-propagating evaluation of both functions, loops over concrete '
+              'ranges unrolled).',
+              'match finder/window invariants (matches only inside the retained window), look-ahead bookkeeping, the optimal '
+              'parser\'s prices and node links, range-coder carry and flush length, 31-bit renormalisation, arithmetic offsets of symbols (len - 2, slot '
               'bases): all depend on run-time values.'),
     'C02': _c('static: typestate path rule (edge dominance) + writer/reader table extraction from MIR switch arms',
               'BLOCK-TYPESTATE: the XZ block / LZIP member closer is only reachable where a unit is provably open; TABLE-INVERSE: '
